@@ -11,6 +11,7 @@ Callee classes (DESIGN §2):
   OP      pratt Operator::do_parse_*: Err ⇒ input restored to the checkpoint argument.
   PRIM    InputRef primitives.
 """
+import os
 from interp import (contradicts, add_fact, TOP, UNIT, MOVED, AnalysisError, Inp, has_token, strip_token, taint_of, term_of,
                     norm_cmp, mk_struct, struct_get, describe, repr_term, Frame)
 
@@ -570,7 +571,7 @@ class Models:
             site = ("token", name, line)
             if name == "skip_while" and len(vals) > 1:
                 cv = self.deref_val(fr, vals[1])
-                if isinstance(cv, tuple) and cv[0] == "closure":
+                if isinstance(cv, tuple) and cv[0] in ("closure", "fnitem"):
                     st.ev("uarg", repr_term(term_of(cv)))
             pb = self.node(fr, n, "%s@%s" % (name, line))
             self.after_node(st, "%s@%s" % (name, line), "done", pb)
@@ -589,7 +590,7 @@ class Models:
             self.I.captures.append((fr.body, name, start, i.pos, line, st))
             return [(st, ("span", start, i.pos))]
         if name in ("slice", "slice_from", "span_from", "full_slice", "slice_trailing_inner"):
-            return [(st, ("sym", (name, line)))]
+            return [(st, ("sym", (name, ("at", self.desc_tag(st, i.pos, n)))))]     # the slice at the current position (no source line in terms)
         if name == "state":
             return [(st, ("sym", ("inp_state", n)))]
         if name == "ctx":
@@ -837,6 +838,22 @@ class Models:
                     for st3, r in self.apply(f2, vals[1], [e[3][0] if e[3] else TOP], line):
                         outs.append((st3, ("enum", "Option", "Some", (r,))))
             return outs
+        if is_opt and name in ("map_or", "map_or_else", "is_some_and", "is_none_or"):
+            # semantics, not an opaque term: the same atoms as the `match` / `matches!` / `if let` spelling
+            outs = []
+            for st2, e in self.split_enum(fr, dv[0], ["Some", "None"]):
+                f2 = Frame(self.I, fr.body, fr.fid, st2, fr.depth)
+                if e[2] == "None":
+                    if name == "map_or":
+                        outs.append((st2, vals[1]))
+                    elif name == "map_or_else":
+                        outs.extend(self.apply(f2, vals[1], [], line))
+                    else:
+                        outs.append((st2, ("bool", name == "is_none_or")))
+                else:
+                    fn = vals[2] if name in ("map_or", "map_or_else") else vals[1]
+                    outs.extend(self.apply(f2, fn, [e[3][0] if e[3] else TOP], line))
+            return outs
         if is_opt and name == "filter":
             outs = []
             for st2, e in self.split_enum(fr, dv[0], ["Some", "None"]):
@@ -969,7 +986,13 @@ class Models:
             src = it[1] if isinstance(it, tuple) and it[0] == "iter" else ("?",)
             advanced = it[2] if isinstance(it, tuple) and it[0] == "iter" else True
             outs = []
-            nonempty = any(ft == ("is_empty", src) and fp is False for ft, fp in st.facts)
+            def _unmem(t_):
+                # `&[A]` vs `[A]`: the same sequence whether the slice was reached through one more reference or not
+                while isinstance(t_, tuple) and len(t_) == 2 and t_[0] == "mem":
+                    t_ = t_[1]
+                return t_
+            nonempty = any(isinstance(ft, tuple) and len(ft) == 2 and ft[0] == "is_empty" and _unmem(ft[1]) == _unmem(src) and fp is False
+                           for ft, fp in st.facts)
             s_some = st.copy()
             if isinstance(tgt, tuple) and tgt[0] == "ref":
                 Frame(self.I, fr.body, fr.fid, s_some, fr.depth).write_lv(tgt[1], ("iter", src, True))
